@@ -451,6 +451,16 @@ def run_reset_case(part, builders, ri):
                 return 'err'
         has_program = rcls != 'new'
         _observe_reset(c, rcls, viol, has_program, builders)
+        # the session is used again: after another CLEAR an explicit OPTION BASE 1 outlives the ERASE of the last array
+        # (the observation above has dimensioned an array implicitly; nothing of that may be remembered)
+        for st, want in (('ON ERROR GOTO 0:CLEAR', None), ('OPTION BASE 1', None), ('DIM PB%(2)', None), ('ERASE PB%', None), ('PB%(0)=7', 9)):
+            r = c.run(st)
+            if r.exc is not None:
+                viol('%s/host-exception/%s' % (rcls, H.exc_key(r.exc)), '%r: %r' % (st, r.exc))
+                break
+            if r.err != want:
+                viol('%s/reuse-after-clear/option-base' % rcls, 'in the session used again after the reset and a CLEAR, %r gives error %r, expected %r' % (st, r.err, want))
+                break
         return 'ok'
     finally:
         c.done()
